@@ -78,10 +78,15 @@ def cluster(argv):
     return ["-" + "".join(x[1] for x in shorts) + (f"w{argv[w + 1]}" if w is not None else "")] + rest
 
 
+EMPTY_EXCLUDE = [False]       # per job: the config file sets `exclude = []` (an empty list REPLACES the default exclusions: nothing is excluded)
+
+
 def cfg_value(s, auto):
     """the value a config file sets: non-default; for the switches --auto locks, the opposite of the preset when auto"""
     if auto and s in AUTOLOCKED:
         return False
+    if s == "exclude" and EMPTY_EXCLUDE[0]:
+        return []
     return CFGVAL[s]
 
 
@@ -190,6 +195,7 @@ def _merge_point(job):
         os.chdir(d)
         make_tree(d)
         auto = p["auto"]
+        EMPTY_EXCLUDE[0] = bool(idx % 2)
         cfgvals = {s: cfg_value(s, auto) for s, c in ((p["s1"], p["c1"]), (p["s2"], p["c2"])) if c == "set"}
         # "setdef": the config file spells out the built-in default (not expressible for exclude, whose default is "not set")
         cfgvals.update({s: DEFAULT[s] for s, c in ((p["s1"], p["c1"]), (p["s2"], p["c2"])) if c == "setdef" and DEFAULT[s] is not None})
